@@ -1,4 +1,102 @@
+/-
+C05 — No received byte sequence can crash or wedge a Frugal process.
+
+  "For every byte sequence a peer can deliver, as a framed message on a socket,
+  a NATS or STOMP message or an HTTP body, every receiving entry point (client
+  response path, server request path, subscriber path) either handles it or
+  rejects it with an error; it never panics and never blocks forever.
+  Message-oriented receivers (NATS, STOMP, HTTP, server workers) keep serving
+  later well-formed messages, and a connection-oriented receiver does at most
+  close that one connection and report the cause."
+
+The models keep Go's slice-expression semantics (`FV.slice`, `FV.sliceFrom`:
+out of range ⇒ the explicit outcome `Res.panic`), so "never panics" is a real
+statement about index arithmetic, not an artefact of totalisation. Termination
+("never blocks forever" for these loops) is Lean's termination proof of
+`readPairs` (measure `end − i`; it needs the negative-length rejection) and the
+structural recursion of everything else: every function below is total.
+-/
 import FV.Model.Headers
+import FV.Model.Registry0
+import FV.Model.Receivers
+import FV.Proofs.Headers
+
 namespace FV.C05
-theorem c05_empty : headersFromFrame [] = .err .invalidData := rfl
+open FV
+
+/-- Client response path, frame variant: `getHeadersFromFrame` never panics. -/
+theorem c05_no_panic_frame (bs : Bytes) : ∀ p, headersFromFrame bs ≠ .panic p :=
+  headersFromFrame_no_panic bs
+
+/-- Server request / subscriber path: `readHeader` on a stream never panics. -/
+theorem c05_no_panic_stream (bs : Bytes) : ∀ p, unmarshalStream bs ≠ .panic p :=
+  unmarshalStream_no_panic bs
+
+/-- `readPairs` itself, for any window inside the buffer and any accumulator. -/
+theorem c05_no_panic_readPairs (buf : Bytes) (i e : Int) (acc : Hdrs) (h0 : 0 ≤ i) (he : e ≤ buf.length) :
+    ∀ p, readPairs buf i e acc ≠ .panic p :=
+  readPairs_no_panic buf i e acc h0 he
+
+theorem c05_no_panic_addHeaders (bs : Bytes) (adds : Hdrs) : ∀ p, addHeadersToFrame bs adds ≠ .panic p :=
+  addHeadersToFrame_no_panic bs adds
+
+/-- `fRegistryImpl.Execute` (header parse, op id parse, unregistered ⇒ nil). -/
+theorem c05_no_panic_execute (bs : Bytes) : ∀ p, registryExecuteEmpty bs ≠ .panic p :=
+  registryExecuteEmpty_no_panic bs
+
+/-- `fBaseTransport.ExecuteFrame` (NATS client handler path): strips the frame size. -/
+theorem c05_no_panic_executeFrame (bs : Bytes) : ∀ p, executeFrameEmpty bs ≠ .panic p :=
+  executeFrameEmpty_no_panic bs
+
+/-- `fNatsServer.processFrame`. -/
+theorem c05_no_panic_processFrame (bs : Bytes) : ∀ p, natsServerProcessFrame bs ≠ .panic p :=
+  natsServerProcessFrame_no_panic bs
+
+/-- Every outcome of every modelled receiver is `ok` or an error return. -/
+theorem c05_handled_or_rejected (bs : Bytes) :
+    (headersFromFrame bs).isPanic = false ∧ (unmarshalStream bs).isPanic = false ∧
+    (executeFrameEmpty bs).isPanic = false ∧ (natsServerProcessFrame bs).isPanic = false := by
+  refine ⟨?_, ?_, ?_, ?_⟩
+  · cases h : headersFromFrame bs <;> simp [Res.isPanic]; exact absurd h (c05_no_panic_frame bs _)
+  · cases h : unmarshalStream bs <;> simp [Res.isPanic]; exact absurd h (c05_no_panic_stream bs _)
+  · cases h : executeFrameEmpty bs <;> simp [Res.isPanic]; exact absurd h (c05_no_panic_executeFrame bs _)
+  · cases h : natsServerProcessFrame bs <;> simp [Res.isPanic]; exact absurd h (c05_no_panic_processFrame bs _)
+
+theorem worker_alive (w : Worker) (ms : List Bytes) (h : w.alive = true) : (w.recvAll ms).alive = true := by
+  induction ms generalizing w with
+  | nil => simpa [Worker.recvAll]
+  | cons m t ih =>
+    simp only [Worker.recvAll, List.foldl_cons]
+    apply ih
+    unfold Worker.recv
+    simp only [h]
+    split
+    · simp at *
+    · split <;> simp [h]
+
+/-- Message-oriented receiver (NATS subscriber worker): after ANY sequence of received
+byte strings the worker is still alive and delivers the next well-formed message. -/
+theorem c05_worker_keeps_serving (ms : List Bytes) (w : Bytes) (hw : 4 ≤ w.length) :
+    ((Worker.init.recvAll ms).recv w).alive = true ∧
+    ((Worker.init.recvAll ms).recv w).delivered = (Worker.init.recvAll ms).delivered + 1 := by
+  have ha := worker_alive Worker.init ms rfl
+  unfold Worker.recv
+  simp only [ha]
+  have : ¬ w.length < 4 := by omega
+  simp [this]
+
+/-- The stateless message receivers (NATS server worker / client handler) have no state to
+corrupt: the outcome for a message is a function of that message alone, whatever came before. -/
+theorem c05_stateless_receivers (garbage : List Bytes) (w : Bytes) :
+    (garbage.map natsServerProcessFrame, natsServerProcessFrame w).2 = natsServerProcessFrame w ∧
+    (garbage.map executeFrameEmpty, executeFrameEmpty w).2 = executeFrameEmpty w := ⟨rfl, rfl⟩
+
+/-! Non-vacuity / witnesses of the defects repaired (these inputs panicked before the fix). -/
+example : headersFromFrame [0, 0, 0, 0, 1, 9] = .err .invalidData := by
+  simp [headersFromFrame, unmarshalHeadersFromFrame, rd32, toI32, readPairs]
+example : unmarshalStream [0, 255, 255, 255, 255] = .err .invalidData := by
+  simp [unmarshalStream, rd32, toI32]
+example : executeFrameEmpty [1, 2] = .err .invalidData := by simp [executeFrameEmpty]
+example : natsServerProcessFrame [] = .err .invalidData := by simp [natsServerProcessFrame]
+
 end FV.C05
